@@ -15,7 +15,7 @@ import os
 import shutil
 import subprocess
 
-from lib import common, fmtcommon
+from lib import common, fmtcommon, gensyntax, pipeline
 from lib.checks import c08, c10
 from lib.common import ToolError
 
@@ -24,6 +24,7 @@ def run(ctx):
     rnd = common.rng(ctx, "c09")
     with ctx.timed("inputs"):
         items = fmtcommon.inputs(ctx, 120 if ctx.quick else 1357)
+        items += pipeline.iter_sources(ctx, 120 if ctx.quick else 1357, common.rng(ctx, "fmt-iter"))      # spec/GenIter.tla
     # layout-edited variants of a sample (blank-line / comment / docstring interactions)
     base = [(n, s) for n, s in items if not n.startswith("gen:")]
     lreqs = [{"op": "lex", "src": s, "detail": True} for _, s in base]
@@ -43,6 +44,14 @@ def run(ctx):
     items = items + variants
     with ctx.timed("roundtrip"):
         res = c08.evaluate(ctx, items)
+    # spec/GenSyntax.tla: every row of the surface grammar, as files of rows; a file that is not stable / canonical (or fails C08)
+    # is split down to the single row, so a failure carries the tags of ONE row
+    with ctx.timed("gensyntax"):
+        syn, syninfo = gensyntax.cases(ctx)
+        units, syn_reqs = gensyntax.formatter_units(ctx, syn, c08.evaluate, extra_ok=gensyntax.crude_canonical)
+    for u, r in units:
+        items.append((u.name, u.src))
+        res.append(r)
     # string spans of the formatted output, to know which lines lie inside string / docstring contents
     ok_idx = [i for i, r in enumerate(res) if r["stage"] == "ok"]
     with ctx.timed("lex_outputs"):
@@ -90,6 +99,10 @@ def run(ctx):
         else:
             events.append({"a": "run", "want": "C09", "name": name, "parse2": bool(r["parse2"]), "astEqual": bool(r["ast_equal"]),
                            "idempotent": True, "lines": lines if len(lines) < 400 else lines[:400], "finalNl": final_nl})
+    syn_ev = [e for e in events if e["name"].startswith("syntax")]
+    if len(syn_ev) > (150 if ctx.quick else 1500):      # TLC re-evaluates RunStable on every event: a seeded sample of the GenSyntax files
+        keep = set(id(e) for e in rnd.sample(syn_ev, 150 if ctx.quick else 1500))
+        events = [e for e in events if not e["name"].startswith("syntax") or id(e) in keep]
     # ---------------------------------------------------------------- CLI sessions
     cli = common.harness_bin("incan_cli")
     common.build_harness()
@@ -195,6 +208,8 @@ def run(ctx):
                 "process; distinct by source text; CLI sessions of 6 invocations each on a seeded sample of real files",
         "samples": ctx.samples,
         "formatter_runs": n, "cli_invocations": n_cli, "trace_events_validated_by_tlc": validated,
+        "gensyntax": dict(gensyntax.coverage(syn, syninfo), formatter_requests=syn_reqs,
+                          files_of_rows_stable=sum(1 for u, _ in units if not u.single), single_rows_judged=sum(1 for u, _ in units if u.single)),
         "tlc_states": sum(r["distinct"] for r in ctx.tlc_runs),
     }, assumptions=["inputs whose formatted output does not parse are C08's failures; their second formatting is not judged here"])
 
